@@ -480,6 +480,33 @@ func runC03(r *Run) {
 		r.check(cm >= 1, "findParamLen:counts-occurrences", r.fpos(m), "the matcher counts occurrences of ComparePart in the rest of the path", "the matcher no longer counts occurrences of ComparePart")
 	})
 
+	r.rule("R9", "the parser sees the escapes: `\\:` and `\\*` are literals only while the backslash is still in front of them, so no pattern handed to parseRoute (register, addPrefixToRoute, RoutePatternMatch and their helpers) is derived from RemoveEscapeChar — that form is for the literal comparison (Route.path), not for parsing; a matcher built from it turns `/v1/:id\\:cancel` into two parameters while Route.Params and RoutePatternMatch still count one (E3: provenance of the parser's input)", func() {
+		n := 0
+		isUnescape := func(v ssa.Value) bool {
+			c, ok := v.(*ssa.Call)
+			return ok && strings.HasSuffix(calleeName(&c.Call), ".RemoveEscapeChar")
+		}
+		r.P.AllFuncs("", func(f *ssa.Function) {
+			for _, c := range callsMatching(f, false, func(s string) bool { return strings.HasSuffix(s, "fiber/v3.parseRoute") || strings.HasSuffix(s, "routeParser).parseRoute") }) {
+				args := c.Common.Args
+				if len(args) == 0 {
+					continue
+				}
+				pat := args[0]
+				if strings.HasSuffix(c.Name, "routeParser).parseRoute") && len(args) > 1 {
+					pat = args[1]
+				}
+				if _, isParam := stripValue(pat).(*ssa.Parameter); isParam {
+					continue // a wrapper: judged at its callers
+				}
+				n++
+				r.check(dependsOn(pat, isUnescape) == nil, short(f.String())+":parseRoute:pattern-with-its-escapes", r.pos(c.Instr), "the parsed pattern still carries its escapes",
+					"a pattern is parsed after RemoveEscapeChar: escaped `:`/`*`/`+` become live parameters in the matcher while Route.Params (parsed from the raw pattern) and RoutePatternMatch treat them as literals — `/v1/:id\\:cancel` serves /v1/12:cancel with id = \"1\"")
+			}
+		})
+		r.atLeast("parseRoute calls with a computed pattern", n, 3)
+	})
+
 	r.rule("R8", "the catch-all short cut is taken for the catch-all pattern only: Route.match accepts a route flagged star before any parsing, with the whole path as `*` — so register and addPrefixToRoute raise Route.star only on the normalised pattern being the text \"/*\"; a flag derived from the parsed segments (`second segment is greedy`) is also true for `/+`, which must not match `/` — dispatch and RoutePatternMatch would then disagree (E8: the flag is a comparison with that literal)", func() {
 		n := 0
 		for _, fn := range []string{"(*App).register", "(*App).addPrefixToRoute"} {
